@@ -187,6 +187,103 @@ def interstitial(cname):
     return fn
 
 
+# ---- (c) VacancyMediated.Lij: every rate multiplied by lambda multiplies every coefficient by lambda ---------------------------
+class GFabstract:
+    """abstract Green-function calculator (environment): arbitrary value per (i, j, dx) query, arbitrary symmetric bare diffusivity
+    and bias correction, with the contract the property needs from it: multiplying every vacancy rate by lambda divides the Green
+    function by lambda, multiplies the bare diffusivity by lambda and leaves the bias correction unchanged (that the real
+    calculator has this scaling is part of C10, which this family cannot reach)."""
+
+    def __init__(self, calc, scale=None):
+        self.calc, self.scale, self.Dscale = calc, scale, None
+        self.g, self.D0, self.eta0 = {}, None, None
+
+    def SetRates(self, pre, betaene, preT, betaeneT, **kw):
+        dim, N = self.calc.dim, self.calc.N
+        if self.D0 is None:
+            self.D0 = np.empty((dim, dim), dtype=object)
+            for i in range(dim):
+                for j in range(i, dim):
+                    self.D0[i, j] = self.D0[j, i] = Sym(core.z3.Real('GF_D_%d%d' % (i, j)))
+            self.eta0 = np.array([[Sym(core.z3.Real('GF_eta_%d_%d' % (i, a))) for a in range(dim)] for i in range(N)], dtype=object)
+        # (no division: the FIRST run sees the Green function lam*h and the bare diffusivity d, the second run - all rates
+        # multiplied by lam - sees h and lam*d)
+        self.D = (self.D0 * (self.Dscale if self.Dscale is not None else 1)).view(SymArray)
+        self.eta = self.eta0.copy().view(SymArray)
+
+    def Diffusivity(self):
+        return self.D
+
+    def biascorrection(self):
+        return self.eta
+
+    def __call__(self, i, j, dx):
+        key = (int(i), int(j), tuple(float(x) for x in np.round(np.asarray(dx, dtype=float), 6)))
+        if key not in self.g:
+            self.g[key] = Sym(core.z3.Real('GF_g%d' % len(self.g)))
+        return self.g[key] if self.scale is None else self.g[key] * self.scale
+
+
+def lij_scaling(cfg, large):
+    def fn(src=None):
+        import C14 as hist
+        calc = hist.get_calc(cfg)
+        name = 'lij-scaling:%s:%s' % (cfg, 'large' if large else 'std')
+        calc.clearcache()
+        lom2 = 1e-300 if large else 1e300
+        shapes = (('bFV', len(calc.sitelist)), ('bFS', len(calc.sitelist)), ('bFSV', calc.thermo.Nstars), ('bFT0', len(calc.om0_jn)),
+                  ('bFT1', len(calc.om1_jn)), ('bFT2', len(calc.om2_jn)))
+        if src is None:
+            ENG.allow_hash = True
+            # (the large-omega2 branch needs eigh of a lam-dependent matrix: its path is reported as out-of-model)
+            calc.GFcalc_real = getattr(calc, 'GFcalc_real', calc.GFcalc)
+            args = [SymArray([contracts.logvar('%s%d' % (nm, k)) for k in range(n)]) for nm, n in shapes]
+            lam = contracts.positive('lam')
+            loglam = contracts.sym_log(lam)
+            args2 = args[:3] + [SymArray([x - loglam for x in a]) for a in args[3:]]
+            inputs = {'y_' + nm: Sym(ENG.logv[nm][1]) for nm in ENG.logv}
+            stub = GFabstract(calc)
+            with shim.symbolic_mode():
+                calc.GFcalc = stub
+                stub.scale, stub.Dscale = lam, None
+                L1 = calc.Lij(*args, large_om2=lom2)
+                calc.clearcache()
+                stub.scale, stub.Dscale = None, lam
+                L2 = calc.Lij(*args2, large_om2=lom2)
+            calc.GFcalc = calc.GFcalc_real
+            calc.clearcache()
+            eq = harness.exact_eq
+        else:
+            calc.GFcalc = getattr(calc, 'GFcalc_real', calc.GFcalc)
+            v = src.vals
+
+            def e(nm):
+                return 2 * np.log(float(v.get('y_' + nm, 1.0)))
+            args = [np.array([e('%s%d' % (nm, k)) for k in range(n)]) for nm, n in shapes]
+            lam = float(v.get('y_lam', 1.0)) ** 2
+            args2 = args[:3] + [a - np.log(lam) for a in args[3:]]
+            inputs = {}
+            large_arg = 1e-300 if large else 1e300
+            L1 = calc.Lij(*args, large_om2=large_arg)
+            L2 = calc.Lij(*args2, large_om2=large_arg)
+
+            def eq(a, b):
+                sc = max(np.abs(np.asarray(b, dtype=float)).max(), 1e-300)
+                return bool(np.abs(np.asarray(a, dtype=float) - np.asarray(b, dtype=float)).max() <= 1e-7 * sc)
+        info = {'inputs': inputs, 'replayer': 'lij', 'extra': {'cfg': cfg, 'large': large}}
+        obs = []
+        for n, nm in enumerate(('L0vv', 'Lss', 'Lsv', 'L1vv')):
+            if src is None:
+                obs.append(('%s:%s' % (name, nm), harness.rational_eq(np.asarray(L2[n], dtype=object).ravel(), (np.asarray(L1[n], dtype=object) * lam).ravel()),
+                            dict(info, sig='lij-scaling:' + nm, timeout_ms=60000, standalone=True)))
+            else:
+                obs.append(('%s:%s' % (name, nm), eq(L2[n], L1[n] * lam), dict(info, sig='lij-scaling:' + nm)))
+        if src is None:
+            obs.append(('twin:%s' % name, harness.exact_eq(L2[1], L1[1] * lam * lam), {'timeout_ms': 20000}))
+        return obs
+    return fn
+
+
 SHAPES_Q = [(2, 1, 2, 2, 2, 1), (1, 2, 1, 1, 2, 2)]
 SHAPES_T = SHAPES_Q + [(3, 1, 2, 2, 3, 2), (2, 2, 3, 1, 2, 1), (1, 1, 1, 1, 1, 1), (3, 3, 1, 2, 1, 2)]
 
@@ -200,6 +297,9 @@ def sections(tier):
     for c in (['X1s', 'X1', 'X4r'] if tier == 'quick' else ['X1s', 'X1', 'X4r', 'X2', 'X2b', 'X3']):
         secs.append(S('inter:' + c, interstitial(c), budget_s=170 if tier == 'quick' else 1200, replayer='inter', config=c,
                       timeout_ms=60000 if tier == 'quick' else 120000))
+    for cfg in (['square-1', 'sc-1'] if tier == 'quick' else ['square-1', 'sc-1', 'square-2']):
+        secs.append(S('lij-scaling:%s:std' % cfg, lij_scaling(cfg, False), budget_s=170 if tier == 'quick' else 1200, replayer='lij',
+                      config=cfg, timeout_ms=60000, maxpaths=32))
     return secs
 
 
@@ -209,7 +309,8 @@ def main():
     if REPLAY:
         run.replay_main('C04', {
             'p2b': lambda rec: harness.run_laws_concrete(p2b(tuple(rec['extra']['shape'])), rec),
-            'inter': lambda rec: harness.run_laws_concrete(interstitial(rec['extra']['crystal']), rec)})
+            'inter': lambda rec: harness.run_laws_concrete(interstitial(rec['extra']['crystal']), rec),
+            'lij': lambda rec: harness.run_laws_concrete(lij_scaling(rec['extra']['cfg'], rec['extra']['large']), rec)})
     chk = run.Check(
         'C04',
         functions=[loader.func_hash(f) for f in (OnsagerCalc.VacancyMediated.preene2betafree, OnsagerCalc.Interstitial.diffusivity,
